@@ -92,4 +92,28 @@ example : EnvRun0 2 4 2 hazExH hazSchedH2 ∧
   ⟨envRun0_of_B ⟨_, _, [], rfl⟩ (by decide +kernel), by decide +kernel, by decide +kernel, by decide +kernel,
    by decide +kernel, by decide +kernel, by decide +kernel, by decide +kernel⟩
 
+
+/-- three threads on the default strategy (fast path): a borrowed guard held across `rcu`, a `store`,
+    a `compare_and_swap` with a guard as `current`, a full load, a `swap`, releases -/
+def exM : State := State.initial {} (fun t =>
+  if t = 0 then [("new h0 5", .new 0 5), ("mk c0 h0", .mk 0 0), ("load c0 g0", .load 0 0), ("rcu c0 h1", .rcu 0 1),
+    ("dropg g0", .dropg 0), ("droph h1", .droph 1)]
+  else if t = 1 then [("new h2 6", .new 2 6), ("store c0 h2", .store 0 2), ("load c0 g1", .load 0 1), ("new h3 7", .new 3 7),
+    ("cas c0 g1 h3 g2", .cas 0 (.g 1) 3 2), ("dropg g1", .dropg 1), ("dropg g2", .dropg 2)]
+  else if t = 2 then [("loadfull c0 h4", .loadfull 0 4), ("new h5 9", .new 5 9), ("swap c0 h5 h6", .swap 0 5 6),
+    ("droph h4", .droph 4), ("droph h6", .droph 6)]
+  else [])
+/-- thread 0 creates the container, then the three threads take turns, one atomic access each -/
+def schedM : List (Nat × Bool) := List.replicate 3 (0, false) ++ (List.range 500).map (fun i => (i % 3, false))
+
+/-- non-vacuity, concurrent and on the default strategy: the 503-step round-robin execution of `exM`
+    satisfies every assumption of the ledger (three nodes, eight registers, three threads); all
+    three threads run to their exit, no fault, the container ends up owning the only live object -/
+example : EnvRun0 3 8 3 exM schedM ∧ ((run exM schedM).th 0).op = .finished ∧
+    ((run exM schedM).th 1).op = .finished ∧ ((run exM schedM).th 2).op = .finished ∧
+    (run exM schedM).sh.cells 0 = some 1 ∧ ((run exM schedM).sh.heap 1).cnt = 1 ∧
+    ((run exM schedM).sh.heap 2).live = false ∧ ((run exM schedM).sh.heap 3).live = false :=
+  ⟨envRun0_of_B ⟨_, _, [], rfl⟩ (by decide +kernel), by decide +kernel, by decide +kernel, by decide +kernel,
+   by decide +kernel, by decide +kernel, by decide +kernel, by decide +kernel⟩
+
 end M
